@@ -68,6 +68,12 @@ ANCHORS = [
     ("ADD_EXCLUDE_ACTION", "src/filter.rs", r"pub fn add_exclude\(&mut self, pattern: &str\) -> Result<\(\)> \{\s*let rule = FilterRule::new\(FilterAction::(\w+), pattern\)", "str"),
     ("FILTER_NO_MATCH_RESULT", "src/filter.rs", r"// No rules matched - default is to include\s*(true|false)\s*\}", "str"),
     ("FILTER_FIRST_MATCH_RETURN", "src/filter.rs", r"if rule\.matches\(path, is_dir\) \{\s*return rule\.action == FilterAction::(\w+);", "str"),
+    # C11/C12: the repaired bisync state handling and content comparison are present in the source
+    ("BISYNC_STATE_RECORDS_BOTH_SIDES", "src/bisync/engine.rs", r"^fn (file_state)\(path: &Path\) -> Option<\(SystemTime, u64\)>", "flag"),
+    ("BISYNC_STATE_SKIPS_FAILED", "src/bisync/engine.rs", r"(if failed\.contains\(path\)) \{\s*continue;", "flag"),
+    ("BISYNC_CONTENT_EQUAL_READS_BYTES", "src/bisync/classifier.rs", r"Ok\((same_bytes)\(&source\.path, &dest\.path\)\.unwrap_or\(true\)\)", "flag"),
+    ("BISYNC_MAX_DELETE_DEFAULT", "src/cli.rs", r'#\[arg\(long, default_value = "([0-9]+)"\)\]\s*\n\s*pub max_delete: u8,', "nat"),
+    ("BISYNC_STRATEGIES", "src/cli.rs", r'let valid_strategies = \[([^\]]*)\];', "strlist"),
     ("TEMP_SUFFIX", "src/transport/local.rs", r'name\.push\("([^"]+)"\);', "str"),
 ]
 
